@@ -113,6 +113,11 @@ where
     if n_rows * n_cols < big_n || n_rows * n_cols >= 4 * big_n.next_power_of_two() {
         return Verdict::viol("matrix-shape", format!("{} coefficients in a {} x {} matrix", big_n, n_rows, n_cols));
     }
+    // the codeword is as long as the code's rate dictates for the chosen row length, not longer
+    let want_ext = if rho.1 == 1 { (n_cols * rho.0).next_power_of_two() } else { (n_cols * rho.0 + rho.1 - 1) / rho.1 };
+    if n_ext != want_ext {
+        return Verdict::viol("codeword-length", format!("{} coefficients in a {} x {} matrix: rows are encoded to {} symbols, the code's rate gives {}", big_n, n_rows, n_cols, n_ext, want_ext));
+    }
     // modelled proof size (in field elements / digests) for a matrix with r rows
     let model = |r: usize| -> Option<usize> {
         let m = (big_n + r - 1) / r;
